@@ -4,6 +4,7 @@
 #include "rt/x256.h"
 
 #include <cnl/overflow_integer.h>
+#include <cnl/rounding_integer.h>
 #include <cmath>
 
 namespace c06 {
@@ -360,6 +361,60 @@ void total(char const* desc)
         for (size_t i = 0; i < nl; ++i)
             for (size_t j = 0; j < bs.size(); ++j) one(as[i], bs[j], true);
         for (int i = 0; i < 5000 && !t.closed; ++i) one(rand_val<L>(rng), rand_val<R>(rng), false);
+    }
+    t.emit();
+}
+
+// ---- C07 only: other wrapper nestings and operand forms of the checked types must be total as well (event kind only)
+//  form 0: overflow_integer<rounding_integer<T, nearest_rounding_tag>, Tag>  op  same      (+ - * /)
+//  form 1: built-in << overflow_integer<T, Tag>  and  built-in >> overflow_integer<T, Tag>   (the count is the wrapper)
+template<class TG, class T, int Form>
+void total_forms(char const* desc)
+{
+    if (!kernel_selected(desc)) return;
+    using Tag = typename TG::tag;
+    Tally t(desc);
+    Rng rng(mix(env_seed(), hash_str(desc)));
+    std::vector<T> as = values_for<T>();
+    size_t nl = as.size();
+    for (int i = 0; i < 100; ++i) as.push_back(rand_val<T>(rng));
+    auto run = [&](char const* opn, T a, T b, bool distinct, auto&& f) {
+        if (t.closed) { ++t.notrun; return; }
+        Outcome o = guarded([&] { f(); });
+        bool nt = distinct && (is_boundary(a) || is_boundary(b));
+        auto in = [&] { return istr(a) + " " + opn + " " + istr(b); };
+        bool own_signal = (TG::id == 1 && (o.kind == THROW_POS || o.kind == THROW_NEG)) || (TG::id == 2 && (is_overflow_abort(o, 1) || is_overflow_abort(o, -1)));
+        if (o.kind == VALUE || own_signal) {
+            t.held(o, nt);
+            t.sample(nt, in, [&] { return std::string("a value or the tag's own signal"); }, [&] { return std::string(kind_name(o.kind)); });
+        } else
+            t.violation(c07_class(o) + ":" + opn, o, in(), "a value or the tag's own signal", outcome_str(o, ""), nt);
+    };
+    if constexpr (Form == 0) {
+        using W = cnl::overflow_integer<cnl::rounding_integer<T, cnl::nearest_rounding_tag>, Tag>;
+        for (size_t i = 0; i < as.size(); ++i)
+            for (size_t j = (i % 2); j < as.size(); j += 2) {
+                T a = as[i], b = as[j];
+                W wa = cnl::_impl::from_rep<W>(cnl::_impl::from_rep<cnl::rounding_integer<T, cnl::nearest_rounding_tag>>(a));
+                W wb = cnl::_impl::from_rep<W>(cnl::_impl::from_rep<cnl::rounding_integer<T, cnl::nearest_rounding_tag>>(b));
+                bool d = i < nl && j < nl;
+                run("+", a, b, d, [&] { auto r = wa + wb; (void)r; });
+                run("-", a, b, d, [&] { auto r = wa - wb; (void)r; });
+                run("*", a, b, d, [&] { auto r = wa * wb; (void)r; });
+                if (b != 0) run("/", a, b, d, [&] { auto r = wa / wb; (void)r; });
+                run("neg", a, b, d, [&] { auto r = -wa; (void)r; });
+            }
+    } else {
+        using W = cnl::overflow_integer<T, Tag>;
+        int w = (int)sizeof(decltype(T{} << 1)) * 8;
+        for (size_t i = 0; i < as.size(); ++i)
+            for (int c = 0; c <= 2 * w + 1; ++c) {
+                if (X::of(c) > xmax<T>()) break;
+                T a = as[i];
+                W wc = cnl::_impl::from_rep<W>((T)c);
+                run("builtin<<wrapper", a, (T)c, i < nl, [&] { auto r = a << wc; (void)r; });
+                run("builtin>>wrapper", a, (T)c, i < nl, [&] { auto r = a >> wc; (void)r; });
+            }
     }
     t.emit();
 }
